@@ -503,4 +503,53 @@ theorem ser_ne_nil (cfg : Cfg) (f : Field) (fs : Row) (h : f :: fs ≠ [[]]) :
     · simp [serF, hn] at h1
     · simp [serF, hn] at h1; simp [h1]
 
+/-! ### the scanner does not look at the fields already completed (used for the plugin glue, which hands only the last field over) -/
+
+def addPre (pre : Row) (st : St) : St := { st with out := pre ++ st.out }
+
+theorem scan_addPre (cfg : Cfg) (pre : Row) : ∀ (n : Nat) (l : List UInt8), l.length ≤ n → ∀ (st : St),
+    scan cfg l (addPre pre st) = addPre pre (scan cfg l st) := by
+  intro n
+  induction n with
+  | zero =>
+    intro l hl st
+    have : l = [] := List.eq_nil_of_length_eq_zero (by omega)
+    subst this; simp [scan]
+  | succ n ih =>
+    intro l hl st
+    match l, hl with
+    | [], _ => simp [scan]
+    | c :: cs, hl =>
+      have ih1 : ∀ st, scan cfg cs (addPre pre st) = addPre pre (scan cfg cs st) := ih cs (by simp at hl; omega)
+      unfold scan
+      have e1 : (addPre pre st).skipping = st.skipping := rfl
+      have e2 : (addPre pre st).encap = st.encap := rfl
+      have e3 : (addPre pre st).first = st.first := rfl
+      have e4 : (addPre pre st).value = st.value := rfl
+      simp only [e1, e2, e3, e4]
+      split
+      · exact ih1 { st with pos := st.pos + 1 }
+      · split
+        · split
+          · match cs, hl, ih1 with
+            | [], _, _ => rfl
+            | d :: ds, hl, ih1 =>
+              have ih2 : ∀ st, scan cfg ds (addPre pre st) = addPre pre (scan cfg ds st) := ih ds (by simp at hl; omega)
+              simp only []
+              split
+              · exact ih2 { st with skipping := false, value := st.value ++ [d], pos := st.pos + 2 }
+              · exact ih1 { st with skipping := true, encap := false, pos := st.pos + 1 }
+          · split
+            · split
+              · rfl
+              · exact ih1 { st with skipping := false, value := stripTrailingSpaces st.value, encap := true, pos := st.pos + 1 }
+            · exact ih1 { st with skipping := false, encap := true, pos := st.pos + 1 }
+        · split
+          · have := ih1 { st with skipping := false, out := st.out ++ [st.value], value := [], first := true, pos := st.pos + 1 }
+            simp only [addPre, List.append_assoc] at this ⊢
+            exact this
+          · exact ih1 { st with skipping := false, first := false,
+                                value := if st.encap ∨ (c ≠ LF ∧ c ≠ CR) then st.value ++ [c] else st.value, pos := st.pos + 1 }
+
+
 end BlocV.Mod.Csv
